@@ -207,6 +207,18 @@ func (e *Engine) Generate(prop, tier string, seed uint64, run int) *sim.Plan {
 	// bias: unequal forks and cross merges need bursts of edits on one replica between syncs
 	burstRep, burstLeft := 0, 0
 	id := 0
+	if prop == "C12" && r.Chance(0.35) {
+		// a population in which more than ten bugs share a search token and a label
+		n := r.Range(11, 18)
+		for i := 0; i < n; i++ {
+			id++
+			st := sim.Step{Id: id, Op: "newbug", R: 0, D: int64(r.Range(1, 600)), S: genTitle(r) + " kw0", T: genMessage(r), A: r.Intn(8)}
+			p.Steps = append(p.Steps, st)
+		}
+		id++
+		p.Steps = append(p.Steps, sim.Step{Id: id, Op: "push", R: 0, D: 1})
+		nsteps += n + 1
+	}
 	for len(p.Steps) < nsteps {
 		id++
 		st := sim.Step{Id: id, R: r.Intn(nrep), D: int64(r.Range(1, 3600))}
